@@ -1,4 +1,5 @@
 import Witverif.Proofs.AbiLower6
+import Witverif.Proofs.AbiLift3
 /-!
 # C01 — Shared ABI generator encodes and decodes every WIT value per the spec
 
@@ -11,8 +12,8 @@ public entry point is compared, exactly, with the model's (`abi-trace` vs `m_abi
 Proved here for *all* memory-free types (any nesting of records, tuples, flags with any number of
 members, enums, variants/options/results with every slot join, fixed-length lists, all scalars and
 handles), all values, both pointer widths.  Strings, lists and maps (types whose encoding needs
-linear memory) and the lifting / in-memory directions are covered by the correspondence and the
-monitors on the real streams; their theorems are listed as `_partial` obligations at the end.
+linear memory) and the in-memory directions are covered by the correspondence and the monitors on
+the real streams; their theorems are listed as partial obligations in the evidence.
 -/
 namespace Witverif.Props.C01
 open Witverif.Abi
@@ -54,6 +55,20 @@ theorem lower_flat_entry (p : Nat) (hp : p = 4 ∨ p = 8) (canon : Ty → Bool) 
     { p, inputs := [.v v] } [] {} ss es rfl rfl (by simp [eval]) h
   subst hss
   simp [runBlock, execStmts, hes]
+
+/-- **Flat lifting is the spec's `lift_flat`, including its traps.**  For every memory-free type `t`,
+both pointer widths, any backend configuration: if the operands handed to `lift` denote core values
+`cs` that are well-formed for `flatten t` (right core types, each within its width — *any* such bit
+patterns, not only images of values: hosts may pass anything), the expression the generator builds
+evaluates to exactly what the canonical ABI assigns to `cs`, and it traps (`none`) exactly when the
+spec traps (invalid discriminant, invalid char).  Operands may come from anywhere (flat parameters,
+loads): they only have to denote `cs` independently of the block frames. -/
+theorem lift_flat_correct (p : Nat) (hp : p = 4 ∨ p = 8) (c : Cfg) (t : Ty) (hm : memFree t = true)
+    (lvl : Nat) (xs : List Expr) (env : Env) (m : Spec.Mem) (cs : List CVal) (e : Expr)
+    (hp' : env.p = p) (hwf : WfFlat cs (Spec.flatten p t)) (hden : Denotes env m xs cs)
+    (h : lift c lvl t xs = .ok e) :
+    ∀ fr, eval (env.withFrames fr) m e = (Spec.liftFlat p m t cs).map MV.v :=
+  lift_sound p hp c t hm lvl xs env m cs e hp' hwf hden h
 
 /-- The spec's flat lowering of a memory-free value is well-formed: it leaves the state alone and
 yields `flatten t` many core values of the right types, each within its width. -/
